@@ -1405,6 +1405,13 @@ class Store:
                 mother_processes = self.get_path(mother_path).get_processes()
                 processes = copy.deepcopy(mother_processes)
                 processes = processes or {}
+                # the mother's steps are part of the compartment too
+                # (get_processes() leaves them out); like explicitly
+                # given steps they are generated together with the
+                # processes
+                mother_steps = self.get_path(mother_path).get_steps()
+                deep_merge_check(
+                    processes, copy.deepcopy(mother_steps) or {})
                 # The mother's processes may have a command pending (an
                 # update that was requested but not collected yet). The
                 # copies are new processes that were never sent one.
